@@ -212,6 +212,13 @@ class C06(Check):
                 o = outcome(fastavro.schemaless_reader, io.BytesIO(enc[:k]), schema)
                 if o[0] == "ok":
                     raise Violation("schemaless-prefix-accepted", f"prefix {k}/{len(enc)} of {enc[:60].hex()} decoded to {short(o[1])}; schema={js!r:.200}")
+                # the lenient text decoding modes read the same bytes: a short input is short in every mode
+                for mode in ("replace", "ignore"):
+                    self.fault_points += 1
+                    labels.add("schemaless-prefix:handle_unicode_errors")
+                    o = outcome(fastavro.schemaless_reader, io.BytesIO(enc[:k]), schema, handle_unicode_errors=mode)
+                    if o[0] == "ok":
+                        raise Violation("schemaless-prefix-accepted:" + mode, f"prefix {k}/{len(enc)} of {enc[:60].hex()} with handle_unicode_errors={mode!r} decoded to {short(o[1])}; schema={js!r:.200}")
                 for rs in droppers:
                     self.fault_points += 1
                     labels.add("schemaless-prefix-with-reader-schema")
